@@ -54,8 +54,8 @@ def c01(tier, seed):
             for pre in ((0,) if n == NT and tier == "quick" else (0, 1, 2, 3)):
                 jobs.append(job("HSqlOpener", [w, n, pre], safety=True, witness_every=50))
     c.run_group("T-openers-api", BASE + H("h_api.go"), jobs, expect_labels=["done"])
-    c.run_group("T-attack-templates", SQLT, rel_jobs(tier, seed, "HSqlAttackTotal", "HSqlNearTotal", qstep=48), expect_labels=["done"])
-    c.run_group("T-class-sequences", BASE + H("h_sqli.go", "h_sql_tpl.go", "h_sql_seq.go"), seq_jobs("HSqlSeqTotal", tier, seed, frac_quick=4, safety=True), expect_labels=["done"])
+    c.run_group("T-attack-templates", SQLT, rel_jobs(tier, seed, "HSqlAttackTotal", "HSqlNearTotal", qstep=96), expect_labels=["done"])
+    c.run_group("T-class-sequences", BASE + H("h_sqli.go", "h_sql_tpl.go", "h_sql_seq.go"), seq_jobs("HSqlSeqTotal", tier, seed, frac_quick=8, safety=True), expect_labels=["done"])
     return c.finish("model_checking", "every feasible path of IsSQLi over every byte string of length <= %d; first scan step in 5 modes for inputs <= %d; 15 kinds of long tokens (29-34 bytes) with a free byte before or after; 41 construct openers x 4 context prefixes + <= %d free bytes; each path's index/slice/nil/division/step-budget obligations decided by z3 or the byte-domain procedure" % (N, NU, NT),
                     {"W_free_bytes": N, "U_free_bytes": NU, "opener_tail_free_bytes": NT})
 
@@ -353,8 +353,8 @@ def c06(tier, seed):
         jobs += wjobs("HSpecFold", NW, extra=[f])
     c.run_group("W-stream-fold", SPECSQL, jobs, expect_labels=["checked"])
     c.run_group("W-api", SPECSQL, wjobs("HSpecIsSQLi", NW), expect_labels=["checked"])
-    c.run_group("T-templates", SPECSQL + H("h_sql_tpl.go", "h_spec_sqli_tpl.go", "h_sql_seq.go"), rel_jobs(tier, seed, "HSpecSqlT", "HSpecSqlNearT", qstep=67, safety=False), expect_labels=["checked"])
-    c.run_group("T-class-sequences", SPECSQL + H("h_sql_tpl.go", "h_spec_sqli_tpl.go", "h_sql_seq.go"), seq_jobs("HSpecSqlSeq", tier, seed, frac_quick=3, frac_thorough4=32), expect_labels=["checked"])
+    c.run_group("T-templates", SPECSQL + H("h_sql_tpl.go", "h_spec_sqli_tpl.go", "h_sql_seq.go"), rel_jobs(tier, seed, "HSpecSqlT", "HSpecSqlNearT", qstep=101, safety=False), expect_labels=["checked"])
+    c.run_group("T-class-sequences", SPECSQL + H("h_sql_tpl.go", "h_spec_sqli_tpl.go", "h_sql_seq.go"), seq_jobs("HSpecSqlSeq", tier, seed, frac_quick=6, frac_thorough4=32), expect_labels=["checked"])
     c.assumptions.append("text that reaches a Unicode case-folding call is ASCII (other paths are closed as excluded and counted)")
     return c.finish("model_checking", "implementation vs independently written reference (spec/sqltok.go, spec/sqlfold.go) on the same symbolic input: first token in 5 modes for all inputs <= %d bytes; token stream, folded tokens, fingerprint, context verdict in 5 modes and IsSQLi for all inputs <= %d bytes" % (NU, NW),
                     {"U_free_bytes": NU, "W_free_bytes": NW, "modes": 5})
@@ -630,7 +630,7 @@ def c09(tier, seed):
     c.run_group("W-free-units", COST, jobs, expect_labels=["checked"], confirm=confirm)
     # unit level: cost of one call linear in the bytes consumed (constants fixed from the functions' structure)
     NS, NL, NT, NUR = (8, 4, 6, 5) if tier == "quick" else (10, 5, 8, 6)
-    jobs = [job("HCostStrCore", [n, 2, 4], safety=True) for n in range(1, NS + 1)]
+    jobs = [job("HCostStrCore", [n, 4, 8], safety=True) for n in range(1, NS + 1)]  # measured 2n-1; a quadratic scanner reaches 65 at n=8
     for f in (0, 1, 2):
         jobs += wjobs("HCostLex", NL, extra=[f, 16, 2400], safety=True)
     for st in range(22):
